@@ -145,11 +145,14 @@ var valIndex = func() map[string]int {
 	for i, v := range XExp {
 		m[v.Label] = len(Alphabet) + i
 	}
+	for i, v := range CaseVals {
+		m[v.Label] = len(Alphabet) + len(XExp) + i
+	}
 	return m
 }()
 
-// allVals is Alphabet followed by XExp (value ids index into it).
-func allVals() []Val { return append(append([]Val{}, Alphabet...), XExp...) }
+// allVals is Alphabet followed by XExp and CaseVals (value ids index into it).
+func allVals() []Val { return append(append(append([]Val{}, Alphabet...), XExp...), CaseVals...) }
 
 func idsOf(labels []string) []int {
 	out := make([]int, len(labels))
